@@ -133,6 +133,19 @@ CLAIMED = {
               'port and the direct oracle on the real objects (stated as such; no theorem is claimed for Python-level mutation).'),
         note=COMMON_NOTE + 'Message texts are not modelled (tags instead); the key-set clause has no theorem yet (port + oracle only).',
         design='§6 C13'),
+    'C15': dict(
+        technique='Lean 4 proof (splitting, shorthand expansion, deprecated names, spaces on the expansion model; kernel-evaluated nested instance) + random-rewriting oracle + accept correspondence',
+        text=('On the Lean model of DefinitionSchema.expand: C15_split (a key <op>_<rule> is split at the first underscore after the '
+              'operator for every rule name), C15_underscore, C15_shorthand ({op_rule: [v..]} expands to {op: [{rule: v}..]} for every '
+              'value list), C15_deprecated / C15_deprecated_conflict, C15_spaces, C15_nested and C15_idempotent_instance (kernel-'
+              'evaluated: shorthand, deprecated and spaced forms planted in a sub-schema, list schema, valuesrules, items, *of '
+              'definition and allow_unknown rule set expand to the canonical schema; re-expansion is the identity). Downstream '
+              'behaviour coincides because everything consumes the expanded schema (C04_exposes_expanded). Partial: "wherever" for '
+              'unbounded schemas is decided by the oracle (random rewritings at every eligible position of generated schemas: '
+              'accepted, validator.schema canonical, same verdict/errors/normalized document) and the accept port (same expanded '
+              'schema). Known finding F15c (list-schema rule set that looks like a field mapping) is reported as KNOWN-FINDING.'),
+        note=COMMON_NOTE + 'Four defects of this property were repaired by fix: commits (F15b, F25, F28; F15a is covered by F28).',
+        design='§6 C15'),
     'C17': dict(
         technique='Lean 4 proof (termination measure over the rotation streak, accounting invariant) + correspondence of the work-list model + least-fixpoint oracle',
         text=('C17_terminates: for every setter family, pending list and mapping the work list stops within n(n+3)/2 iterations; '
